@@ -50,6 +50,10 @@ func init() {
 			} {
 				j("VerifCancelAtOutput", p, "9")
 			}
+			// recursion that does not go through a function written in the language (the extensions package's harness)
+			for _, p := range []string{`s = "eval(s)"; eval(s)`, `func f(n){eval("f(n+1)")}; f(0)`, `s = "[eval(s)]"; eval(s)`, `g = n => eval("g(n+1)"); g(0)`, `s = "if true {eval(s)}"; eval(s)`} {
+				jobs = append(jobs, Job{Prop: "C09", Pkg: "extensions", Func: "VerifExtNoPanic", Args: []string{p}, MaxDec: 400, MaxSteps: 8_000_000, HangLabel: "depth/recursion-not-stopped-by-the-depth-limit"})
+			}
 			hi := "24"
 			if tier == "thorough" {
 				hi = "60"
@@ -60,13 +64,13 @@ func init() {
 			j("VerifDepth", `t=0; for i=k0 {t=t+[[[[i]]]][0][0][0][0]}; t`, "10", hi)
 			return jobs
 		},
-		HangLabels: []string{"guard/guarded-size-wrapped", "guard/guarded-size-is-exact-product", "guard/negative-count-reaches-guard", "guard/large-result-built-without-guard", "cancel/evaluation-continues-after-cancellation"},
+		HangLabels: []string{"guard/guarded-size-wrapped", "guard/guarded-size-is-exact-product", "guard/negative-count-reaches-guard", "guard/large-result-built-without-guard", "cancel/evaluation-continues-after-cancellation", "depth/recursion-not-stopped-by-the-depth-limit"},
 		Budget:     map[string]time.Duration{"quick": 6 * time.Minute, "thorough": 40 * time.Minute},
 		Reach:      []string{"refused by the memory guard", "refused with an error", "result built", "guard reached", "cancelled during evaluation", "cancelled after a printed line", "max depth reported", "completed within the limit"},
 		Bounds: map[string]interface{}{"guard_arithmetic": "array * n and string * n for operand lengths 0,1,2,3,4,9,16,257 and ALL int64 n, free memory = an arbitrary int64 (object.FreeMemory replaced by a nondeterministic stub); result sizes above 8 are not materialised by the executor (reported bound-exceeded)",
 			"cancellation_at_output": "10 programs with top-level prints inside nested list / map / string / counted / conditional loops; the context is cancelled by the output writer right after the k-th printed line, every k in 1..9 - a clock the evaluator does not control; no further line may be printed",
 			"cancellation": "8 programs (loops, recursion, non-terminating loop, unbounded recursion, container operators); the context's Err() turns non-nil at the k-th call for every k in 0..40 (120 thorough)",
-			"depth":        "4 recursion shapes (direct, mutual, closure chain, nested expressions), MaxDepth every value in 10..24 (60 thorough), recursion depth 0..24"},
+			"depth_through_eval": "5 programs recursing through the eval extension (no function of the language on the cycle), MaxDepth 60: the depth guard must stop them", "depth":        "4 recursion shapes (direct, mutual, closure chain, nested expressions), MaxDepth every value in 10..24 (60 thorough), recursion depth 0..24"},
 		Assumptions: []string{"time, resident memory and the Go stack are not modelled: the claim is about the arithmetic and control flow the guards rely on (DESIGN §4 C09, §6)"},
 		Outside:     []string{"wall-clock deadline in seconds, process memory within a constant factor, real stack exhaustion, the parser's recursion on deeply nested source text, extension callbacks"},
 	})
